@@ -86,6 +86,7 @@ pub fn scenario(kind: &str, sid: &str, nops: usize, maxlen: usize, rng: &mut Rng
     // a few ids per type, so that overwrites / re-writes / removes of the same key happen
     let ids: Vec<Id> = (0..6).map(|_| Id::new(rng.bytes(32).try_into().unwrap())).collect();
     let mut stray_done = false;
+    let mut last_len: std::collections::BTreeMap<String, usize> = std::collections::BTreeMap::new();
     for opn in 0..nops {
         let nt = if rng.chance(1, 10) { 5 } else { 4 };
         let t = *rng.pick(&TYPES[..nt]);
@@ -93,12 +94,17 @@ pub fn scenario(kind: &str, sid: &str, nops: usize, maxlen: usize, rng: &mut Rng
         let k = key_name(t, &id, &mut names);
         match rng.below(10) {
             0..=3 => {
-                let len = match rng.below(6) {
-                    0 => 0,
-                    1 => rng.range(1, 64) as usize,
-                    2 => 4096,
-                    _ => rng.range(1, maxlen as i64) as usize,
+                // every third write to a key that was written before has the length of that earlier write (other bytes)
+                let len = match (last_len.get(&k), rng.below(3)) {
+                    (Some(l), 0) => *l,
+                    _ => match rng.below(6) {
+                        0 => 0,
+                        1 => rng.range(1, 64) as usize,
+                        2 => 4096,
+                        _ => rng.range(1, maxlen as i64) as usize,
+                    },
                 };
+                _ = last_len.insert(k.clone(), len);
                 let data = Bytes::from(rng.bytes(len));
                 vals.v.push(data.clone());
                 let vid = vals.v.len();
